@@ -54,7 +54,7 @@ CONFIG = {
                  'construct:rejected:PL', 'cast:accepted', 'cast:rejected',
                  'mc:rejected_out_of_logic', 'mc:rejected_path_formula',
                  'mc:rejected_non_kripke', 'mc:accepted',
-                 'children:foreign'],
+                 'children:foreign', 'children:two_languages', 'cast:chain'],
     'rule': ('cases = (operator tree, target language, how the children were '
              'obtained); trees: all trees of depth <=2 over {not,and,or,'
              'imply,A,E,X,F,G,U,R} with leaves {p,true} (n-ary and/or with '
@@ -405,11 +405,38 @@ def drive(t, i, with_mc=True):
                     getattr(lang(dst), CLS[t[0]])(*kids)
                 except Exception:
                     pass
+    # children taken from TWO different other languages in one constructor
+    if len(t) >= 3 and t[0] not in ('ap', 'bool') and i % 3 == 0:
+        for s1 in LANGS:
+            for s2 in LANGS:
+                if s1 == s2:
+                    continue
+                kids = []
+                for ci, c in enumerate(t[1:]):
+                    kids.append(try_build(s1 if ci % 2 == 0 else s2, c,
+                                          raw=False))
+                if any(k is None for k in kids):
+                    continue
+                for dst in LANGS:
+                    LOG.sig['children:two_languages'] += 1
+                    try:
+                        getattr(lang(dst), CLS[t[0]])(*kids)
+                    except Exception:
+                        pass
     for src, o in objs.items():
         for dst in LANGS:
             if dst != src:
                 try:
-                    o.cast_to(lang(dst))
+                    o2 = o.cast_to(lang(dst))
+                    # cast chains through a third language and back
+                    if i % 5 == 0:
+                        for third in LANGS:
+                            if third not in (src, dst):
+                                LOG.sig['cast:chain'] += 1
+                                try:
+                                    o2.cast_to(lang(third)).cast_to(lang(src))
+                                except Exception:
+                                    pass
                 except Exception:
                     pass
         if with_mc:
